@@ -90,6 +90,7 @@ type Engine struct {
 	Nondet      []string
 	Violations  []*Violation
 	KnownSeen   map[string]string
+	KnownCex    []*KnownCex
 	inited      map[*ssa.Package]bool
 	initState   *State
 	harness     string
@@ -588,6 +589,10 @@ func (e *Engine) prove(st *State, kind, label string, cond *Term, ins ssa.Instru
 			ob.KnownID = id
 			inputs, _ := e.decodeModel(vals)
 			e.KnownSeen[id] = fmt.Sprintf("%s (%s) at %s, e.g. %v", label, kind, ob.Pos, compactInputs(inputs))
+			e.noteKnown(id, kind, label, ob.Pos, inputs)
+			if os.Getenv("GOSMT_DEBUG") != "" {
+				fmt.Printf("DEBUG known-site %s at %s: cond=%s\n", label, ob.Pos, firstN(cond.String(), 3000))
+			}
 			break
 		}
 		ob.Verdict = "violated"
@@ -611,6 +616,7 @@ func (e *Engine) prove(st *State, kind, label string, cond *Term, ins ssa.Instru
 		if r2 == Sat {
 			inputs, _ := e.decodeModel(vals2)
 			e.KnownSeen[knownID] = fmt.Sprintf("%s at %s, e.g. %v", label, ob.Pos, compactInputs(inputs))
+			e.noteKnown(knownID, kind, label, ob.Pos, inputs)
 		} else if _, ok := e.KnownSeen[knownID]; !ok && r2 == Unsat {
 			// remember that the finding was looked for
 			if _, seen := e.KnownSeen["gone:"+knownID]; !seen {
@@ -671,6 +677,25 @@ func (e *Engine) crossCheck(pc []*Term, q *Term, ob *Obligation) {
 	}
 }
 
+// KnownCex is a solver model attributed to a recorded finding; it is replayed natively (with no
+// finding treated as known) before the KNOWN-FINDING line is printed.
+type KnownCex struct {
+	ID, Kind, Label, Pos string
+	Inputs               map[string]interface{}
+}
+
+func (e *Engine) noteKnown(id, kind, label, pos string, inputs map[string]interface{}) {
+	n := 0
+	for _, k := range e.KnownCex {
+		if k.ID == id {
+			n++
+		}
+	}
+	if n < 2 {
+		e.KnownCex = append(e.KnownCex, &KnownCex{ID: id, Kind: kind, Label: label, Pos: pos, Inputs: inputs})
+	}
+}
+
 // knownSite: is a violated obligation of this kind at this position attributed to an open finding?
 func (e *Engine) knownSite(kind, pos string) string {
 	for _, kf := range e.opts.KnownSites {
@@ -703,6 +728,7 @@ func (e *Engine) panicPath(st *State, kind string, ins ssa.Instruction) {
 				if r == Sat {
 					inputs, _ := e.decodeModel(vals)
 					e.KnownSeen[kp.id] = fmt.Sprintf("panic (%s) at %s, e.g. %v", kind, pos, compactInputs(inputs))
+					e.noteKnown(kp.id, "panic", kind, pos, inputs)
 				}
 				return
 			}
